@@ -326,6 +326,13 @@ def py_resolve(root, cwd_abs, this_file, J, p):
 
 def oracle(case, root, obs1, obs2, by_real):
     """by_real: realpath -> entry.  Returns None or (key, description)."""
+    for o in (obs1, obs2):
+        if o['rc'] not in (0, 1, 'timeout'):
+            if 'sourceannot' in o['err'] and 'end_col > annot.span.start_col' in o['err']:
+                # the snippet renderer asserts on a span that consists of zero-width characters only
+                return ('crash-renderer-zero-width-char', 'the binary aborts (status %s) while rendering the diagnostic of an imported/loaded '
+                        'file whose offending character has display width 0: %s' % (o['rc'], [l for l in o['err'].split('\n') if 'assertion' in l][:1]))
+            return ('crash', 'the binary dies with status %s: %s' % (o['rc'], o['err'][-300:]))
     if (obs1['rc'], obs1['val'], obs1['tags'], obs1['err']) != (obs2['rc'], obs2['val'], obs2['tags'], obs2['err']):
         return ('nondeterministic', 'two runs of the same command differ')
     if obs1['rc'] == 'timeout':
@@ -700,6 +707,12 @@ def gen_case(rng, idx, allow_unpriv):
             if k == 'i' and i + 1 >= len(order) and rng.random() < 0.9:
                 k = rng.choice(['s', 'b'])
             e['items'].append([k, pick(k)])
+    if len(order) >= 2 and rng.random() < 0.06:
+        # a strict back-edge: an import cycle through values being computed (infinite recursion)
+        j = rng.randrange(1, len(order))
+        src = order[j]
+        order[0]['strict'].append(['i', path_to(main_dir, src['p'])])
+        src['strict'].append(['i', path_to('/'.join(src['p'].split('/')[:-1]), order[0]['p'])])
     return {'ents': ents, 'cwd': cwd, 'J': J, 'main': main, 'priv': priv}
 
 
@@ -804,8 +817,11 @@ def run_cases(run, cases, cli, model_exe, label, unpriv_ok):
             else:
                 # the model provably meets the property; the differing answer of the implementation is
                 # a resolution / caching / delivery behaviour the property determines
+                # (which diagnostic class is printed, and the order of evaluations, are not fixed by the
+                # property: those are reported as a broken correspondence without a failing input)
                 run.violation('import-model-' + diff[0], 'implementation differs from the proved model: %s (argv -J %s %s, cwd %r)' % (
-                    diff[1], case['J'], case['main'], case['cwd']), replay)
+                    diff[1], case['J'], case['main'], case['cwd']), replay,
+                    concrete=diff[0] not in ('failure-class', 'evaluation-order'))
             continue
         f = mr.split('\t')
         cls = f[0] if f[0] != 'ERR' else 'ERR_' + f[1] + ('_' + f[2] if f[1] in ('IMPORT', 'MAIN') else '')
@@ -879,7 +895,7 @@ def check(run):
     cases = []
     for i, c in enumerate(load_corpus()):
         cases.append(('k%d' % i, c))
-    n = 700 if run.tier == 'quick' else 12000
+    n = 400 if run.tier == 'quick' else 8000
     for i in range(n):
         cases.append(('t%d' % i, gen_case(rng, i, unpriv_ok)))
     run_cases(run, cases, cli, model_exe, 'tree_cases', unpriv_ok)
